@@ -215,3 +215,79 @@ def once_sets(rng):
     main = ['#include "%s"' % rng.choice(names) for _ in range(rng.range(1, 6))]
     files["main.asm"] = ("\n".join(main) + "\n").encode()
     return ["main.asm"], files, "once" + ("-cyclic" if cyclic else "")
+
+
+OPS = ["<-", "->", "<>", "+", "^", "%", "<<", "&", "~", "!"]
+
+
+def ambiguous(rng):
+    """one instruction matched by several rules of EQUAL encoding size filed under DIFFERENT keys of the prefix index
+    ('' for a rule starting with a parameter, 'r0' for `r0 <- ..` (the key stops at the blank), 'r0<-' for the glued
+    spelling, 'ldx' vs 'ld' + sub-rule): the assembler must reject the line with "multiple matches with the same
+    encoding size" and list the candidates in one fixed order.  Only the DIAGNOSTICS can show a dependence here."""
+    nreg = rng.range(2, 4)
+    regs = ["r%d" % i for i in range(nreg)]
+    out = ["#subruledef reg", "{"] + ["    %s => 0x%x" % (r, i) for i, r in enumerate(regs)] + ["}"]
+    out += ["#subruledef mode", "{", "    x => 0x1", "    y => 0x2", "}"]
+    name = rng.choice(["", " moves", " isa"])
+    rules, lines = [], []
+    for op in rng.shuffle(OPS)[:rng.range(1, 3)]:
+        k, j = rng.choice(regs), rng.choice(regs)
+        fam = [("{a: reg} %s {b: reg}" % op, "0x1 @ a @ b"), ("%s %s {b: reg}" % (k, op), "0x20 @ b"), ("%s%s{b: reg}" % (k, op), "0x21 @ b"),
+               ("{a: reg} %s %s" % (op, j), "0x22 @ a"), ("%s %s %s" % (k, op, j), "0x233"), ("%s%s%s" % (k, op, j), "0x234")]
+        keep = [fam[0]] + [f for f in fam[1:] if rng.chance(0.6)]
+        if len(keep) < 2:
+            keep.append(fam[1])
+        rules += rng.shuffle(keep)
+        for _ in range(rng.range(1, 4)):
+            a = k if rng.chance(0.7) else rng.choice(regs)
+            b = j if rng.chance(0.5) else rng.choice(regs)
+            lines.append(rng.choice(["%s %s %s", "%s%s%s", "%s  %s %s"]) % (a, op, b))
+    if rng.chance(0.6):
+        m = rng.choice(["ld", "st", "mv"])
+        rules += rng.shuffle([("%sx {a: reg}" % m, "0x30 @ a"), ("%s{m: mode} {a: reg}" % m, "0x4 @ m @ a"), ("%sx r0" % m, "0x350")][:rng.range(2, 3)])
+        lines += ["%sx %s" % (m, rng.choice(regs)) for _ in range(rng.range(1, 3))] + ["%sy r0" % m]
+    out += ["#ruledef%s" % name, "{"] + ["    %s => %s" % r for r in rules] + ["}"]
+    out += rng.shuffle(lines)
+    matching = 0 if rng.chance(0.2) else 1
+    return ["main.asm"], {"main.asm": ("\n".join(out) + "\n").encode()}, "ambiguous", matching
+
+
+IDS4 = ["uart", "spi0", "i2c0", "gpio", "tmr0", "adc0", "dac1", "pwm2", "rtc0", "wdt0", "can1", "usb0", "dma3", "eth0", "nvic", "fpu_"]
+
+
+def modules(rng):
+    """a program made of per-device files that all follow ONE template, so the symbols they declare sit at identical byte
+    offsets (and lines) of their respective files; `symbols` / `mesen-mlb` must list them in declaration order"""
+    n = rng.range(3, 8)
+    ids = rng.shuffle(IDS4)[:n]
+    subs = rng.shuffle(["init", "irqh", "read", "send", "stop", "tick", "poll"])[:rng.range(1, 4)]
+    with_const = rng.chance(0.5)
+    deep = rng.chance(0.3)
+    files = {}
+    for x in ids:
+        body = ["%s:" % x]
+        for s in subs:
+            body.append(".%s:" % s)
+            body += ["    nop"] * 2
+            if deep:
+                body.append("..k = %d" % rng.range(1, 9))
+        if with_const:
+            body.append("%s_base = 0x%04x" % (x, rng.below(0x10000)))
+        body.append("    jmp %s.%s" % (x, subs[0]))
+        files["mod_%s.asm" % x] = ("\n".join(body) + "\n").encode()
+    main = ["#ruledef", "{", "    nop          => 0x00", "    jmp {a: u16} => 0x4c @ le(a)", "}", "#res 16", "reset:", "    jmp main", ""]
+    main += ['#include "mod_%s.asm"' % x for x in ids]
+    main += ["", "main:"] + ["    jmp %s.%s" % (x, subs[-1]) for x in ids] + ["    jmp reset"]
+    files["main.asm"] = ("\n".join(main) + "\n").encode()
+    expected = ["reset"]
+    for x in ids:
+        expected.append(x)
+        for s in subs:
+            expected.append("%s.%s" % (x, s))
+            if deep:
+                expected.append("%s.%s.k" % (x, s))
+        if with_const:
+            expected.append("%s_base" % x)
+    expected.append("main")
+    return ["main.asm"], files, "modules", expected
